@@ -411,16 +411,31 @@ Inductive damaged (E : env) (st : store) (r : role) (k : key) : Prop :=
 Definition falls_back {A} (av : bytes -> avro A) (classes : list string) (b : bytes) : bool :=
   match av b with AvOk _ => false | AvRaise mro => caught classes mro end.
 
+(* a transient OSError on open_file is itself one of the fallback classes: the reader then re-reads the
+   file with read_file and tries JSON, so the failure is fatal only when that second attempt fails
+   (always, for the Avro files the library writes) *)
+Definition open_fatal {A} (js : bytes -> option A) (classes : list string) (b : bytes) : bool :=
+  negb (caught classes (mro_of EIO)) || match js b with None => true | Some _ => false end.
+
+Definition reader_sites {A} (av : bytes -> avro A) (js : bytes -> option A) (classes : list string) (b : bytes) : list site :=
+  [(OpExists, 0%nat); (OpExists, 1%nat)]
+  ++ (if open_fatal js classes b then [(OpOpen, 0%nat)] else [])
+  ++ (if falls_back av classes b then [(OpRead, 0%nat)] else []).
+
 Definition sites_of (E : env) (st : store) (r : role) (k : key) (b : bytes) : list site :=
   match r with
   | RMeta => (if match hinted E st with Some mk => N.eqb mk k | None => false end then [(OpExists, 0%nat)] else [])
              ++ [(OpRead, 0%nat)]
-  | RList => [(OpExists, 0%nat); (OpExists, 1%nat); (OpOpen, 0%nat)]
-             ++ (if falls_back (avro_list E) list_fallback b then [(OpRead, 0%nat)] else [])
-  | RManifest => [(OpExists, 0%nat); (OpExists, 1%nat); (OpOpen, 0%nat)]
-             ++ (if falls_back (avro_man E) manifest_fallback b then [(OpRead, 0%nat)] else [])
+  | RList => reader_sites (avro_list E) (json_list E) list_fallback b
+  | RManifest => reader_sites (avro_man E) (json_man E) manifest_fallback b
   | RData => []   (* see [touched]: the site depends on the selected entry's checksum *)
   end.
+
+(* Avro files start with the magic "Obj\001", which is not JSON: bytes the JSON fallback accepts make
+   the Avro attempt raise one of the fallback classes (checked on every byte string of every run) *)
+Definition json_not_avro (E : env) : Prop :=
+  (forall b x, json_list E b = Some x -> falls_back (avro_list E) list_fallback b = true) /\
+  (forall b x, json_man E b = Some x -> falls_back (avro_man E) manifest_fallback b = true).
 
 (* the entry the de-duplication keeps for path k *)
 Definition selected (dfs : list dfile) (k : key) : option dfile := find (fun d => N.eqb (dpath d) k) dfs.
